@@ -7,6 +7,8 @@
 #include "fixture.h"
 #include "../vsched.h"
 #include "conc_bodies.h"
+#include "scenario.h"
+#include "parse_sets.h"
 
 extern "C" {
 extern char __start_uri_wdata[] __attribute__((weak)), __stop_uri_wdata[] __attribute__((weak));
@@ -19,7 +21,7 @@ static volatile uint64_t g_tpc_hits = 0;
 extern "C" void __sanitizer_cov_trace_pc(void) { g_tpc_hits++; if (g_sched) g_sched->point(); }
 
 namespace {
-struct Local { uint64_t schedules = 0, points = 0, max_points = 0, groups = 0, max_preempt = 0, data_bytes = 0; std::set<Str> outcomes; };
+struct Local { uint64_t sweep_calls = 0, schedules = 0, points = 0, max_points = 0, groups = 0, max_preempt = 0, data_bytes = 0; std::set<Str> outcomes; };
 
 struct DataRegions {
     std::vector<std::pair<char *, size_t> > regs; std::vector<Str> snap; size_t total;
@@ -45,7 +47,7 @@ struct SharedMM { Ledger led; UriMemoryManager mm; bool points;
 
 struct Explorer {
     Ctx &ctx; Local &lc; Sched sched; SharedMM smm; ConcWorld world; DataRegions data; bool block_level;
-    std::vector<int> group; std::vector<Str> solo; int bound; Str group_enc; uint64_t budget;
+    std::vector<int> group; std::vector<std::vector<Str> > solo; int bound; Str group_enc; uint64_t budget;
     Explorer(Ctx &c, Local &l, bool blk) : ctx(c), lc(l), world(&smm.mm), block_level(blk), bound(0), budget(0) { lc.data_bytes = data.total; }
     Str enc(const std::vector<uint8_t> &choices) const { Str e = group_enc + "`" + (block_level ? "b" : "a") + "`"; bool first = true; for (size_t i = 0; i < choices.size(); i++) if (choices[i]) { e += fmt("%s%zu:%d", first ? "" : ",", i, choices[i]); first = false; } return e; }   // sparse: position:choice for the non-default choices
     // one execution under a choice prefix; results[i] = what thread i observed
@@ -57,7 +59,7 @@ struct Explorer {
         g_sched = 0; smm.points = false; GUARD_LEAVE();
         lc.schedules++; ctx.progress++; lc.points += sched.trace.size(); if (sched.trace.size() > lc.max_points) lc.max_points = sched.trace.size();
         if (sched.diverged) { what = "replay diverged from the recorded prefix (non-determinism in the harness)"; return false; }
-        for (size_t i = 0; i < group.size(); i++) if (results[i] != solo[group[i]]) { what = fmt("thread %zu (%s) observed '%s' but alone it observes '%s'", i, CONC_BODY_NAMES[group[i]], results[i].substr(0, 200).c_str(), solo[group[i]].substr(0, 200).c_str()); return false; }
+        for (size_t i = 0; i < group.size(); i++) if (results[i] != solo[group[i]][i]) { const Str &a = results[i], &b = solo[group[i]][i]; size_t k = 0; while (k < a.size() && k < b.size() && a[k] == b[k]) k++; size_t from = k > 60 ? k - 60 : 0; what = fmt("thread %zu (%s) observed '...%s' but alone it observes '...%s'", i, CONC_BODY_NAMES[group[i]], a.substr(from, 160).c_str(), b.substr(from, 160).c_str()); return false; }
         if (!smm.led.live.empty() || !smm.led.errors.empty()) { what = smm.led.errors.empty() ? fmt("%zu blocks outstanding after all threads finished", smm.led.live.size()) : smm.led.errors[0]; return false; }
         long ch = data.changed(); if (ch >= 0) { what = fmt("a byte of the library's writable data changed (offset %ld of %zu bytes): the library keeps mutable global/static state", ch, data.total); data.take(); return false; }
         return true;
@@ -84,14 +86,32 @@ struct Explorer {
         explore(std::vector<uint8_t>());
     }
     void solo_runs() {
-        solo.clear();
-        for (int b = 0; b < CONC_NBODIES; b++) {
+        solo.assign(CONC_NBODIES, std::vector<Str>());
+        for (int b = 0; b < CONC_NBODIES; b++) for (int slot = 0; slot < Sched::MAXT; slot++) {
             smm.led.reset(); int sig;
-            if ((sig = GUARD_ENTER()) != 0) { ctx.violation("", fmt("%d`%s`", b, block_level ? "b" : "a"), fmt("%s in thread body '%s' run alone (crash, or write to a shared read-only input)", signame(sig), CONC_BODY_NAMES[b])); solo.push_back("crashed"); continue; }
-            solo.push_back(world.run_body(b, 0)); GUARD_LEAVE();
+            if ((sig = GUARD_ENTER()) != 0) { ctx.violation("", fmt("%d`%s`", b, block_level ? "b" : "a"), fmt("%s in thread body '%s' run alone (crash, or write to a shared read-only input)", signame(sig), CONC_BODY_NAMES[b])); solo[b].push_back("crashed"); continue; }
+            solo[b].push_back(world.run_body(b, slot)); GUARD_LEAVE();
             long ch = data.changed(); if (ch >= 0) { ctx.violation("", fmt("%d`%s`", b, block_level ? "b" : "a"), fmt("a byte of the library's writable data changed while '%s' ran alone: the library keeps mutable global/static state", CONC_BODY_NAMES[b])); data.take(); }
         }
         smm.led.reset(); data.take();
+    }
+    // static-state sweep: every call of the scenario universe and a parse corpus, comparing the library's writable data after each
+    void static_sweep() {
+        Mem mem(1); ArenaMM ro(64); std::vector<ScnSpec> specs = scenario_specs(ctx.quick() ? 1 : 2); uint64_t n = 0;
+        for (size_t i = 0; i < specs.size(); i++) {
+            if (!ctx.mine(i)) continue; if (ctx.expired()) break; int sig;
+            if ((sig = GUARD_ENTER()) != 0) { ctx.violation("", "sweep`" + specs[i].enc(), fmt("%s during the static-state sweep in %s", signame(sig), specs[i].show().c_str())); continue; }
+            { Scenario<char> sc(specs[i], &mem, &ro); if (sc.setup()) { int rc = sc.call(); sc.cleanup(rc); } }
+            { Scenario<wchar_t> sc(specs[i], &mem, &ro); if (sc.setup()) { int rc = sc.call(); sc.cleanup(rc); } }
+            GUARD_LEAVE(); n++; ctx.progress++;
+            long ch = data.changed(); if (ch >= 0) { ctx.violation("", "sweep`" + specs[i].enc(), fmt("a byte of the library's writable data changed (offset %ld of %zu bytes) during %s: the library keeps mutable global/static state", ch, data.total, specs[i].show().c_str())); data.take(); }
+        }
+        auto parse_one = [&](const Str &t) { UriUriA u; UriUriW w; const char *e; const wchar_t *we; std::wstring wt = widen<wchar_t>(t); uriParseSingleUriExA(&u, t.data(), t.data() + t.size(), &e); uriFreeUriMembersA(&u); uriParseSingleUriExW(&w, wt.data(), wt.data() + wt.size(), &we); uriFreeUriMembersW(&w); n++;
+            long ch = data.changed(); if (ch >= 0) { ctx.violation("", "sweep`0`" + t + "``0`0", "a byte of the library's writable data changed while parsing '" + esc(t) + "': the library keeps mutable global/static state"); data.take(); } };
+        brute_force_classes(ctx, 4, [&](const char *p, int len, int) { parse_one(Str(p, len)); });
+        octet_product(ctx, [&](const Str &t) { parse_one(t); });
+        ip6_product(ctx, 4, 3, [&](const Str &t) { parse_one(t); });
+        lc.sweep_calls += n;
     }
 };
 
@@ -100,6 +120,7 @@ void run(Ctx &ctx) {
     // is this the trace-pc flavour? (the callback fires inside library code)
     { UriUriA u; const char *e; uint64_t h0 = g_tpc_hits; uriParseSingleUriA(&u, "a", &e); uriFreeUriMembersA(&u); bool blk = g_tpc_hits != h0;
       Explorer ex(ctx, lc, blk); ex.solo_runs();
+      if (!blk) ex.static_sweep();
       int bound = ctx.quick() ? (blk ? 1 : 2) : (blk ? 2 : 3);
       uint64_t idx = 0;
       for (int a = 0; a < CONC_NBODIES; a++) for (int b = 0; b < CONC_NBODIES; b++) { if (!ctx.mine(idx++)) continue; if (ctx.expired()) break; ex.run_group({ a, b }, bound); }
@@ -110,13 +131,21 @@ void run(Ctx &ctx) {
       }
       ctx.st.count(blk ? "mode_block_level" : "mode_allocator_level", ctx.worker == 0 ? 1 : 0);
     }
-    ctx.st.count("evaluations", lc.schedules); ctx.st.count("schedules", lc.schedules); ctx.st.count("scheduling_points_total", lc.points); ctx.st.count("thread_groups", lc.groups);
+    ctx.st.count("evaluations", lc.schedules); ctx.st.count("schedules", lc.schedules); ctx.st.count("scheduling_points_total", lc.points); ctx.st.count("thread_groups", lc.groups); ctx.st.count("static_sweep_calls", lc.sweep_calls);
     ctx.st.distinct("max_points", fmt("%llu", (unsigned long long)lc.max_points)); ctx.st.distinct("max_preempt", fmt("%llu", (unsigned long long)lc.max_preempt));
     for (auto &o : lc.outcomes) ctx.st.distinct("outcomes", o);
     if (ctx.worker == 0) { ctx.st.count("library_writable_data_bytes", lc.data_bytes); ctx.st.sample("threads {resolve(shared ref, shared base), toString(shared IPv4 URI)} schedule 0,0,1,0,0,1 (two preemptions)"); ctx.st.sample("threads {normalize(own), dissect(shared query), parse(own)}"); }
 }
 void replay(Ctx &ctx, const Str &enc) {
-    std::vector<Str> p = split(enc, '`'); if (p.size() != 3) return; Local lc; std::vector<int> g; for (auto &t : split(p[0], ',')) if (!t.empty()) g.push_back(atoi(t.c_str()));
+    std::vector<Str> p = split(enc, '`'); Local lc;
+    if (p.size() >= 6 && p[0] == "sweep") {       // re-run the sweep call alone and compare the data sections
+        ScnSpec sp; if (!ScnSpec::dec(p, 1, sp)) return; DataRegions data; Mem mem(1); ArenaMM ro(64); int sig;
+        if ((sig = GUARD_ENTER()) != 0) { ctx.violation("", enc, fmt("%s during the static-state sweep", signame(sig))); return; }
+        { Scenario<char> sc(sp, &mem, &ro); if (sc.setup()) { int rc = sc.call(); sc.cleanup(rc); } } { Scenario<wchar_t> sc(sp, &mem, &ro); if (sc.setup()) { int rc = sc.call(); sc.cleanup(rc); } }
+        GUARD_LEAVE(); if (data.changed() >= 0) ctx.violation("", enc, "a byte of the library's writable data changed: the library keeps mutable global/static state");
+        return;
+    }
+    if (p.size() != 3) return; std::vector<int> g; for (auto &t : split(p[0], ',')) if (!t.empty()) g.push_back(atoi(t.c_str()));
     std::vector<uint8_t> pre; for (auto &t : split(p[2], ',')) if (!t.empty()) { size_t at = 0; int ch = 0; if (sscanf(t.c_str(), "%zu:%d", &at, &ch) == 2) { if (pre.size() <= at) pre.resize(at + 1, 0); pre[at] = (uint8_t)ch; } }
     UriUriA u; const char *e; uint64_t h0 = g_tpc_hits; uriParseSingleUriA(&u, "a", &e); uriFreeUriMembersA(&u); bool blk = g_tpc_hits != h0;
     if (blk != (p[1] == "b")) return;          // a block-level schedule only replays in the trace-pc flavour
@@ -127,8 +156,8 @@ Str coverage(const Ctx &, const Stats &st) {
     auto mx = [&](const char *k) { uint64_t m = 0; auto it = st.sets.find(k); if (it != st.sets.end()) for (auto &s : it->second) m = std::max<uint64_t>(m, strtoull(s.c_str(), 0, 10)); return m; };
     return jkv("states", st.get("scheduling_points_total")) + ", " + jkv("transitions", st.get("scheduling_points_total")) + ", " + jkv("traces_validated_against_impl", st.get("schedules")) + ", " + jkv("evaluations", st.get("evaluations")) + ", " +
            jkv("distinct_nontrivial", st.get("schedules")) + ", " + jkv("schedules", st.get("schedules")) + ", " + jkv("thread_groups", st.get("thread_groups")) + ", " + jkv("max_scheduling_points_in_one_execution", mx("max_points")) + ", " + jkv("preemption_bound_reached", mx("max_preempt")) + ", " +
-           jkv("distinct_outcomes", st.nset("outcomes")) + ", " + jkv("library_writable_data_bytes", st.get("library_writable_data_bytes")) + ", " + jkvs("scheduling_point_level", st.get("mode_block_level") ? "every basic-block edge of the library (gcc -fsanitize-coverage=trace-pc)" : "every allocator call") + ", " +
-           jkvs("rule", "stateless exploration of the real library under a serialising scheduler (threads are user-level contexts; control changes hands only at scheduling points; a schedule is its list of choices and is replayed exactly): for every ordered pair of the ten bodies {parse own text, resolve shared->own, shorten shared->own, mask query shared, toString shared->own buffer, equals shared, dissect shared text->own list, compose shared list->own buffer, normalize own copy, makeOwner own} and for triples, ALL schedules with at most `bound` preemptions are executed (iteratively from the default schedule); each thread's observation must equal what the same body observes alone, the shared ledger must balance, the library's writable data sections (linker-bracketed, compared byte for byte) must not change, shared inputs live in PROT_READ memory. states/transitions here count scheduling points executed; every schedule is a distinct choice list, so distinct_nontrivial = schedules. distinct_outcomes must be small (one per group): interleavings do not change results.") + ", " + jsamples(st);
+           jkv("distinct_outcomes", st.nset("outcomes")) + ", " + jkv("library_writable_data_bytes", st.get("library_writable_data_bytes")) + ", " + jkv("static_state_sweep_calls", st.get("static_sweep_calls")) + ", " + jkvs("scheduling_point_level", st.get("mode_block_level") ? "every basic-block edge of the library (gcc -fsanitize-coverage=trace-pc)" : "every allocator call") + ", " +
+           jkvs("rule", "stateless exploration of the real library under a serialising scheduler (threads are user-level contexts; control changes hands only at scheduling points; a schedule is its list of choices and is replayed exactly): for every ordered pair of the ten bodies {parse own text, resolve shared->own, shorten shared->own, mask query shared, toString shared->own buffer, equals shared, dissect shared text->own list, compose shared list->own buffer, normalize own copy, makeOwner own} and for triples, ALL schedules with at most `bound` preemptions are executed (iteratively from the default schedule); each thread's observation must equal what the same body observes alone, the shared ledger must balance, the library's writable data sections (linker-bracketed, compared byte for byte) must not change, shared inputs live in PROT_READ memory. A static-state sweep additionally runs every call of the C13/C14 scenario universe (both character types) and a parse corpus once, comparing those sections after each call. states/transitions here count scheduling points executed; every schedule is a distinct choice list, so distinct_nontrivial = schedules. distinct_outcomes must be small (one per group): interleavings do not change results.") + ", " + jsamples(st);
 }
 Check chk = { "C20", "model_checking", run, replay, coverage, "sequentially consistent interleavings at the stated scheduling points only; hardware memory-model effects and sub-basic-block interleavings are left to the free-running ThreadSanitizer pass|bounds: 2-3 threads, preemption bound 2/3 at allocator level, 1/2 at basic-block level" };
 REGISTER_CHECK(chk);
